@@ -82,6 +82,8 @@ class Prepared:
     def gen_inputs(self, rng, sizes=None, choices=(0, 1, 2, 3)):
         """-> (sizes, {name: (coords->value, dims)})"""
         if sizes is None:
+            if len(self.assignment.index_participants()) == 1 and rng.random() < 0.7:
+                choices = (4, 6, 8)
             sizes = problems.index_sizes(self.assignment, rng, choices)
         ins = {}
         for name, t in self.tensors_of().items():
@@ -147,6 +149,20 @@ def enumerate_problems(chk: Check, n_random: int, per_assignment: int, max_leave
     texts = list(problems.CURATED) + list(extra_texts)
     texts += [problems.random_assignment(rng, max_leaves) for _ in range(n_random)]
     seen = set()
+    # co-iteration lattice stress: all-sparse vectors, sparse or dense output
+    from .gen import parse_fmt as _pf
+
+    for _ in range(max(4, n_random // 4)):
+        text = problems.lattice_assignment(rng)
+        a = problems.parse(text)
+        if a is None:
+            continue
+        fm = {n: _pf(rng.choice(["s", "s", "s", "d"])) for n in a.variable_orders()}
+        fm[a.target.name] = _pf(rng.choice(["s", "d"]))
+        pr = Prepared(text, fm)
+        if pr.key() not in seen:
+            seen.add(pr.key())
+            yield pr
     for text in texts:
         a = problems.parse(text)
         if a is None:
